@@ -243,7 +243,7 @@ impl Style {
             trailing_newline: true,
             radix: 0,
             parens: 0,
-            tight: false,
+            tight: true,
         }
     }
     pub fn random(r: &mut Prng) -> Style {
@@ -1199,4 +1199,42 @@ pub fn driver_value(seed: u64, call: usize, sig: &SigSpec, keep_numeric: bool, p
         }
     };
     Some(Ok(v))
+}
+
+impl<'a> Gen<'a> {
+    /// a generator for stand-alone expressions over the given variables
+    pub fn for_exprs(r: &'a mut Prng, p: &'a Profile, vars: &[&str]) -> Gen<'a> {
+        Gen {
+            r,
+            p,
+            scopes: vec![vars.iter().map(|v| v.to_string()).collect()],
+            readable: vec![],
+            reads: vec![],
+            header_len: 0,
+            col_input: vec![],
+            col_bits: vec![],
+            budget: 0,
+            declared: vec![],
+            while_counter: 0,
+            rebind_mode: vec![],
+        }
+    }
+}
+
+/// an expression as text, with the style's parentheses / radix / spacing
+pub fn print_expr(e: &GExpr, r: &mut Prng, st: &Style) -> String {
+    let mut toks = vec![];
+    expr_tokens(e, r, st, &mut toks);
+    let mut out = String::new();
+    let mut prev: Option<String> = None;
+    for t in toks {
+        if let Some(p) = &prev {
+            if (wordy(p) && wordy(&t)) || (!st.tight && r.chance(1, 3)) {
+                out.push(' ');
+            }
+        }
+        out.push_str(&t);
+        prev = Some(t);
+    }
+    out
 }
